@@ -154,6 +154,8 @@ class LDAPMessageParsableBase(ParsableBase):
             message = LDAPMessage.load(bytes(parsable))
             # ensure recursive parsing
             message.native  # pylint: disable=pointless-statement
+        except KeyError as e:
+            six.raise_from(InvalidValue(parsable, cls), e)
         except ValueError as e:
             match = cls._NOT_ENOUGH_DATA_REGEX.match(e.args[0])
             if match:
